@@ -175,7 +175,23 @@ def handle (line : String) : String :=
         | "file-raw" => if req = 0 then none else some (Pipe.init .file req, true)
         | "mem-api" => some (newSize req, false)
         | "file-api" => some (newFilePipe req, true)
-        | _ => none
+        | k =>
+          -- `mem-at@<rpos>@<n>` / `file-at@<rpos>@<n>`: the raw ring at read position rpos holding n unread pattern bytes
+          match k.splitOn "@" with
+          | [b, rp, ns] =>
+            match rp.toNat?, ns.toNat? with
+            | some rpos, some n =>
+              if req = 0 ∨ n = 0 ∨ n > req then none else
+              let be : Option Backend := if b == "mem-at" then some .mem else if b == "file-at" then some .file else none
+              be.map fun be =>
+                let p0 := Pipe.init be req
+                -- ring offset `off` holds unread byte number j = (off - rpos) mod req, if j < n
+                let img := (List.range req).map fun off =>
+                  let j := (off + req - rpos % req) % req
+                  if j < n then pat salt 999983 j else 0
+                ({ p0 with store := { p0.store with rpos := rpos, wpos := rpos + n, mem := img } }, be == .file)
+            | _, _ => none
+          | _ => none
       match mk with
       | none => "panic"
       | some (p, isFile) =>
